@@ -25,6 +25,7 @@ pub mod c15;
 pub mod c16;
 pub mod c17;
 pub mod c19;
+pub mod c20;
 
 pub fn make(property: &str) -> Vec<Box<dyn Monitor>> {
     match property {
@@ -40,6 +41,7 @@ pub fn make(property: &str) -> Vec<Box<dyn Monitor>> {
         "C08" => vec![Box::new(c08::C08::default())],
         "C09" => vec![Box::new(c09::C09::default())],
         "C19" => vec![Box::new(c19::C19::default())],
+        "C20" => vec![Box::new(c20::C20::default())],
         "C10" => vec![Box::new(c10::C10::default())],
         "C11" => vec![Box::new(c11::C11::default())],
         "C12" => vec![Box::new(c12::C12::default())],
